@@ -645,8 +645,10 @@ class HttpParser(abc.ABC, Generic[_MsgT]):
 
         # encoding
         enc = headers.get(hdrs.CONTENT_ENCODING, "")
+        # Content codings are case-insensitive (RFC 9110 section 8.4.1); the
+        # decoders are selected by the lower-case token.
         if enc.isascii() and enc.lower() in {"gzip", "deflate", "br", "zstd"}:
-            encoding = enc
+            encoding = enc.lower()
 
         # chunking
         te = headers.get(hdrs.TRANSFER_ENCODING)
